@@ -318,4 +318,16 @@ def renderTrailerBlock (trailers : Hdrs) : Bytes :=
 def grpcWebStatusEndStream (code : Nat) (msg : Bytes) (detailsBin : Option Bytes) (trailers : Hdrs) : Bytes :=
   renderTrailerBlock (grpcStatusTrailers code msg detailsBin ++ trailers)
 
+/-! ### `examineWireDetails`: HTTP trailers outside the gRPC protocol -/
+
+/-- the content type is that of the gRPC protocol (`application/grpc` or `application/grpc+…`;
+in particular not `application/grpc-web…`) -/
+def isGrpcContentType (ct : String) : Bool :=
+  ct == "application/grpc" || ("application/grpc+".toList.isPrefixOf ct.toList)
+
+/-- the final check of `examineWireDetails`: "response included %d HTTP trailers but should not
+have any" -/
+def httpTrailersFeedback (ct : String) (trailerKeys : Nat) : Bool :=
+  !isGrpcContentType ct && trailerKeys > 0
+
 end ConfModel.WireChecks
